@@ -26,11 +26,20 @@ def wsNames (ws : List WProp) : List Bytes := (ws.map WProp.names).flatten
 /-- names and types of the vertex element's properties, in header order -/
 def wsProps (ws : List WProp) : List (Bytes × SType) := (ws.map (fun w => w.names.map (fun n => (n, w.ty)))).flatten
 
+/-- the writers after (the first occurrence of) `w` in configuration order — their properties stand after `w`'s in the header -/
+def writersAfter (ws : List WProp) (w : WProp) : List WProp := (ws.dropWhile (fun w' => w' != w)).drop 1
+
+/-- the fourth name `a` of an IgnorableW group does not disturb the first three names written by `w`: it is absent from
+the header, or it is written AFTER `w` with ANOTHER scalar type (the 4-vector scan takes its type from the first member it
+meets, finds the fourth "mixed", and the reader falls back to the 3-vector: reader_vector4.go, fix 8c2f8cb) -/
+def wHarmless (ws : List WProp) (w : WProp) (a : Bytes) : Bool :=
+  !(wsNames ws).contains a || (writersAfter ws w).any (fun w' => w'.names.contains a && w'.ty != w.ty)
+
 /-- what entry `r` of `defaultReader.Properties` is expected to claim on the header of `ws`:
 * a scalar reader (`opacity`): its property, if some writer emits it;
 * a vector reader: all its names, if ONE writer emits exactly these names;
 * an IgnorableW reader (`red green blue [alpha]` …): its first three names, if one writer emits exactly these three and
-  the fourth name is absent from the header;
+  the fourth name is harmless (`wHarmless`: absent, or later in the header with another type);
 * nothing otherwise. -/
 def expectNames (ws : List WProp) (r : RProp) : Option (List Bytes × SType) :=
   if r.names.length = 1 then
@@ -39,8 +48,10 @@ def expectNames (ws : List WProp) (r : RProp) : Option (List Bytes × SType) :=
     match ws.find? (fun w => w.names == r.names) with
     | some w => some (r.names, w.ty)
     | none =>
-      if r.ignorableW && !(wsNames ws).contains (r.names.getD 3 []) then
-        (ws.find? (fun w => w.names == r.names.take 3)).map (fun w => (r.names.take 3, w.ty))
+      if r.ignorableW then
+        match ws.find? (fun w => w.names == r.names.take 3) with
+        | some w => if wHarmless ws w (r.names.getD 3 []) then some (r.names.take 3, w.ty) else none
+        | none => none
       else none
 
 /-- the names a vector reader needs at least: all of them, the first three for an IgnorableW reader -/
@@ -48,7 +59,8 @@ def RProp.needed (r : RProp) : List Bytes := if r.ignorableW then r.names.take 3
 
 /-- per reader: either the prediction is a claim, or the reader is certainly not built because a name it needs is
 absent from the header.  Excluded: a recognised group completed by properties of SEVERAL writers (user scalars `px py pz`,
-a scalar `alpha` next to `red green blue`, …: the known-finding classes C04-w-name-…) -/
+a scalar `alpha` of the SAME type after `red green blue`, or of another type BEFORE it, …: the known-finding classes
+C04-w-name-…) -/
 def readerGuard (ws : List WProp) (r : RProp) : Bool :=
   r.names.length = 1 || (expectNames ws r).isSome || r.needed.any (fun n => !(wsNames ws).contains n)
 
